@@ -9,7 +9,7 @@ use std::time::Instant;
 
 use fatfs::{FatType, FormatVolumeOptions};
 use harness::decoder::{self, DecodeOpts};
-use harness::dev::{new_dev, Base};
+use harness::dev::{new_dev, Base, Short};
 use harness::model::ErrKind;
 use harness::report::Report;
 use harness::sess;
@@ -159,6 +159,33 @@ pub fn sizes(rec: &Rec) -> Vec<u32> {
             t = t * 9 / 8 + 1;
         }
     }
+    // sizes at which the request stops (or starts) being accepted: coarse ladder, every accept/reject edge refined
+    {
+        let acc = |t: u64| -> bool { matches!(hook(rec, t as u32), Ok(Ok(_))) };
+        let mut prev: Option<(u64, bool)> = None;
+        let mut t: u64 = 1;
+        while t <= u32::MAX as u64 {
+            let a = acc(t);
+            if let Some((pt, pa)) = prev {
+                if pa != a {
+                    let (mut lo, mut hi) = (pt, t);
+                    while hi - lo > 1 {
+                        let mid = (lo + hi) / 2;
+                        if acc(mid) == pa {
+                            lo = mid;
+                        } else {
+                            hi = mid;
+                        }
+                    }
+                    for d in -2i64..=2 {
+                        s.push((hi as i64 + d).max(0) as u64);
+                    }
+                }
+            }
+            prev = Some((t, a));
+            t = t * 9 / 8 + 1;
+        }
+    }
     let mut v: Vec<u32> = s.into_iter().filter(|x| *x <= u32::MAX as u64).map(|x| x as u32).collect();
     v.sort_unstable();
     v.dedup();
@@ -200,6 +227,28 @@ fn judge_boot(rec: &Rec, total: u32, b: &[u8; 512]) -> Option<(String, String)> 
     if b[510] != 0x55 || b[511] != 0xAA {
         return Some(("C06/accepted/no-boot-signature".into(), format!("{rec:?} total {total}")));
     }
+    // "each table can address every cluster": FAT32 cluster numbers from 0x0FFFFFF7 on are the bad-cluster mark and
+    // the end-of-chain range, so the highest cluster number (count + 1) must stay below
+    if g.width == 32 && g.clusters > 0x0FFF_FFF5 {
+        return Some(("C06/accepted/fat32-cluster-numbers-reach-reserved-values".into(), format!("{rec:?} total {total}: {} clusters", g.clusters)));
+    }
+    // a FAT12/16 volume without a single root-directory slot is not a valid empty volume (it cannot hold an entry,
+    // and a zero root-entry count is how drivers recognise FAT32)
+    if g.width != 32 && g.root_entries == 0 {
+        return Some(("C06/accepted/fat12-16-without-root-directory".into(), format!("{rec:?} total {total}")));
+    }
+    if g.width == 32 && (g.backup_sector == 0 || g.fsinfo_sector == 0) {
+        return Some(("C06/accepted/fat32-without-backup-or-info-sector".into(), format!("{rec:?} total {total}: backup {} info {}", g.backup_sector, g.fsinfo_sector)));
+    }
+    // requested volume id / label arrive in the extended boot record
+    let (o_id, o_label) = if g.width == 32 { (67usize, 71usize) } else { (39, 43) };
+    if rec.vid && b[o_id..o_id + 4] != [0xFF; 4] {
+        return Some(("C06/accepted/volume-id-differs".into(), format!("{rec:?} total {total}: {:02x?}", &b[o_id..o_id + 4])));
+    }
+    let want_label: &[u8; 11] = if rec.label { b"VERIF LABEL" } else { b"NO NAME    " };
+    if &b[o_label..o_label + 11] != want_label {
+        return Some(("C06/accepted/boot-sector-label-differs".into(), format!("{rec:?} total {total}: {:?}", String::from_utf8_lossy(&b[o_label..o_label + 11]))));
+    }
     None
 }
 
@@ -224,25 +273,45 @@ fn judge_rejected(rec: &Rec, total: u32) -> Option<(String, String)> {
     }
 }
 
-/// full format on a sparse device + every check on the resulting image
+/// how the real format is driven: how the storage answers, and whether the size is passed or taken from the storage
+#[derive(Clone, Copy, Debug)]
+pub struct Mode {
+    pub short: Short,
+    /// Some(r): `total_sectors` is NOT set; the storage is `total * bps + r` bytes long
+    pub auto_size_extra: Option<u64>,
+}
+
+pub const EXACT: Mode = Mode { short: Short::Exact, auto_size_extra: None };
+
 fn judge_full(rec: &Rec, total: u32) -> Option<(String, String)> {
-    let len = total as u64 * rec.bps as u64;
+    judge_full_mode(rec, total, EXACT, &AtomicU64::new(0))
+}
+
+/// full format on a sparse device + every check on the resulting image; `ok_count` counts formats that succeeded
+fn judge_full_mode(rec: &Rec, total: u32, mode: Mode, ok_count: &AtomicU64) -> Option<(String, String)> {
+    let len = total as u64 * rec.bps as u64 + mode.auto_size_extra.unwrap_or(0);
     // small volumes are formatted over garbage (0xA5): whatever formatting must initialise but does not shows up;
     // huge ones over zeros (their zero-filled FATs would not fit in memory otherwise)
     let garbage = len <= 2 << 30;
     let base = Arc::new(Base::Proc { len, f: Box::new(move |_, out| out.fill(if garbage { 0xA5 } else { 0 })) });
     let (st, mut dev) = new_dev(&base);
     st.borrow_mut().sparse_zero = !garbage;
-    st.borrow_mut().arm(None, Some(400_000_000));
-    let o = rec.opts().total_sectors(total);
+    st.borrow_mut().short = mode.short;
+    st.borrow_mut().arm(None, Some(4_000_000_000));
+    let o = if mode.auto_size_extra.is_some() { rec.opts() } else { rec.opts().total_sectors(total) };
     let r = sess::guarded(|| fatfs::format_volume(&mut dev, o).map_err(sess::ek));
-    let ctx = format!("{rec:?} total {total}");
+    let ctx = format!("{rec:?} total {total} {mode:?}");
     match r {
         Err(p) => return Some((format!("C06/panic/format_volume/{}", panic_class(&p)), format!("{ctx}: {p}"))),
-        Ok(Err(ErrKind::InvalidInput)) => return None,
+        // the layout computation (boot-sector hook) accepted this request, so it is satisfiable
+        Ok(Err(ErrKind::InvalidInput)) => {
+            let sig = if rec.is_default() && total >= 42 { "C06/default-options/rejected" } else { "C06/layout-accepted-but-format-volume-rejects" };
+            return Some((sig.into(), ctx));
+        }
         Ok(Err(e)) => return Some((format!("C06/rejected-with-{}", e.name()), ctx)),
         Ok(Ok(())) => {}
     }
+    ok_count.fetch_add(1, Ordering::Relaxed);
     let s = st.borrow();
     if s.oob_write || s.max_addr > len {
         return Some(("C06/format-wrote-beyond-declared-size".into(), ctx));
@@ -253,8 +322,12 @@ fn judge_full(rec: &Rec, total: u32) -> Option<(String, String)> {
     }
     let g = decoder::parse_raw(&boot).unwrap();
     let small = g.clusters <= 300_000;
-    let cands = [2u32, 3, g.max_cluster()];
-    let d = decoder::decode_with_geo(&s, &g, &DecodeOpts { candidates: if small { None } else { Some(&cands) }, ..Default::default() });
+    // large volumes: the entries of the first clusters, the last ones, and every cluster number from 0x0FFFFFF0 on
+    let mut cands: Vec<u32> = vec![2u32, 3, 4, g.max_cluster() - 1, g.max_cluster()];
+    cands.extend((0x0FFF_FFF0u32..=0x0FFF_FFF6).filter(|c| *c <= g.max_cluster()));
+    cands.sort_unstable();
+    cands.dedup();
+    let d = decoder::decode_with_geo(&s, &g, &DecodeOpts { candidates: if small { None } else { Some(&cands[..]) }, ..Default::default() });
     let d = match d {
         Ok(d) => d,
         Err(e) => return Some(("C06/accepted/undecodable".into(), format!("{ctx}: {e}"))),
@@ -282,6 +355,30 @@ fn judge_full(rec: &Rec, total: u32) -> Option<(String, String)> {
     }
     // padding entries non-free; all copies identical
     let f = decoder::FatView::new(&s, &g, 0);
+    if !small {
+        for c in &cands {
+            if (g.width != 32 || *c != g.root_cluster) && f.get(*c) != 0 {
+                return Some(("C06/accepted/data-entries-not-free".into(), format!("{ctx}: entry of cluster {c:#x} (of {:#x} clusters) is {:#x}", g.clusters, f.get(*c))));
+            }
+        }
+    }
+    // sectors larger than 512 bytes: the rest of the boot sector (and its copy / the information sector) is initialised
+    if garbage && g.bps > 512 {
+        let mut secs = vec![0u64];
+        if g.width == 32 {
+            secs.push(g.backup_sector as u64);
+            secs.push(g.fsinfo_sector as u64);
+        }
+        for sec in secs {
+            let tail = s.read_vec(sec * g.bps as u64 + 512, g.bps as usize - 512);
+            if let Some(p) = tail.iter().position(|b| *b != 0) {
+                return Some(("C06/accepted/sector-tail-not-zeroed".into(), format!("{ctx}: byte {} of sector {sec} is {:#04x}", 512 + p, tail[p])));
+            }
+        }
+    }
+    if mode.auto_size_extra.is_some() && g.total_sectors != total as u64 {
+        return Some(("C06/accepted/size-not-taken-from-storage".into(), format!("{ctx}: storage holds {total} whole sectors, volume declares {}", g.total_sectors)));
+    }
     let tot = g.fat_entries_total();
     let pad_hi = tot.min(g.clusters + 2 + 4096);
     for c in (g.clusters + 2)..pad_hi {
@@ -352,6 +449,8 @@ pub fn run(tier: &str) -> i32 {
     let evals = AtomicU64::new(0);
     let fulls = AtomicU64::new(0);
     let rejected_real = AtomicU64::new(0);
+    let fulls_short = AtomicU64::new(0);
+    let fulls_auto = AtomicU64::new(0);
     let capped = AtomicU64::new(0);
     let results: Vec<(Vec<(String, String)>, BTreeMap<String, u64>)> = recs
         .par_iter()
@@ -397,9 +496,16 @@ pub fn run(tier: &str) -> i32 {
                             || (bytes <= 64 << 20 && full_budget > 0 && { full_budget -= 1; true })
                             || (bytes > 64 << 20 && bytes <= 1 << 30 && big_budget > 0 && { big_budget -= 1; true });
                         if do_full && Instant::now() < deadline {
-                            fulls.fetch_add(1, Ordering::Relaxed);
-                            if let Some(x) = judge_full(rec, t) {
+                            if let Some(x) = judge_full_mode(rec, t, EXACT, &fulls) {
                                 v.push(x);
+                            }
+                            // the smallest volumes also on storages that accept only part of each transfer
+                            if bytes <= 512 << 10 {
+                                for short in [Short::Always, Short::Block(7)] {
+                                    if let Some(x) = judge_full_mode(rec, t, Mode { short, auto_size_extra: None }, &fulls_short) {
+                                        v.push(x);
+                                    }
+                                }
                             }
                         }
                     }
@@ -427,15 +533,80 @@ pub fn run(tier: &str) -> i32 {
         let mut h = vec![(d.clone(), 1 << 21), (d.clone(), (1 << 23) + 1), (d.clone(), 1 << 26), (d.clone(), u32::MAX)];
         h.push((Rec { bps: 4096, ..d.clone() }, 1 << 24));
         h.push((Rec { ft: Some(FatType::Fat32), bpc: Some(512), ..d.clone() }, 1 << 22));
+        // the largest FAT32 cluster counts (512-byte clusters): cluster numbers 0x0FFFFFF0..=0x0FFFFFF5 are ordinary
+        // data clusters there. The sizes come from the accept/reject edge of the layout computation
+        {
+            let top = Rec { ft: Some(FatType::Fat32), bpc: Some(512), ..d.clone() };
+            let edge: Vec<u32> = sizes(&top).into_iter().filter(|t| *t > 270_000_000 && *t < 275_000_000).collect();
+            for t in edge.iter().rev().filter(|t| matches!(hook(&top, **t), Ok(Ok(_)))).take(if th { 3 } else { 1 }) {
+                h.push((top.clone(), *t));
+            }
+        }
         if th {
             h.push((Rec { bps: 4096, ..d.clone() }, u32::MAX));
             h.push((d.clone(), (1 << 31) + 12345));
         }
         h
     };
-    let huge_res: Vec<Option<(String, String)>> = huge.par_iter().map(|(r, t)| if Instant::now() < deadline { fulls.fetch_add(1, Ordering::Relaxed); judge_full(r, *t) } else { None }).collect();
+    let huge_res: Vec<Option<(String, String)>> = huge.par_iter().map(|(r, t)| if Instant::now() < deadline { judge_full_mode(r, *t, EXACT, &fulls) } else { None }).collect();
     for x in huge_res.into_iter().flatten() {
         all.entry(x.0).or_insert((x.1, 0)).1 += 1;
+    }
+    // the size taken from the storage (total_sectors not set: the literal "default options"): whole and partial last
+    // sectors, and storages at / beyond the 32-bit sector limit
+    {
+        let d = Rec { bps: 512, bpc: None, ft: None, fats: 2, root: 512, label: false, vid: false };
+        let recs = [d.clone(), Rec { bps: 4096, ..d.clone() }, Rec { ft: Some(FatType::Fat32), ..d.clone() }, Rec { fats: 1, root: 16, label: true, vid: true, ..d.clone() }];
+        let mut cases: Vec<(Rec, u32, u64)> = Vec::new();
+        for r in &recs {
+            for t in [42u32, 43, 100, 2880, 8401, 66_000, 70_000, 140_000, 1 << 21] {
+                for extra in [0u64, 1, r.bps as u64 - 1] {
+                    cases.push((r.clone(), t, extra));
+                }
+            }
+        }
+        cases.push((d.clone(), u32::MAX, 0));
+        cases.push((d.clone(), u32::MAX, 511));
+        cases.push((d.clone(), 10 << 20, 0)); // 5 GiB
+        let res: Vec<Option<(String, String)>> = cases
+            .par_iter()
+            .map(|(r, t, extra)| {
+                if Instant::now() > deadline {
+                    return None;
+                }
+                match hook(r, *t) {
+                    Ok(Ok(_)) => judge_full_mode(r, *t, Mode { short: Short::Exact, auto_size_extra: Some(*extra) }, &fulls_auto),
+                    _ => None,
+                }
+            })
+            .collect();
+        for x in res.into_iter().flatten() {
+            all.entry(x.0).or_insert((x.1, 0)).1 += 1;
+        }
+        // storages of 2^32 sectors and more: rejected with InvalidInput, or formatted with a size that is really there
+        for sectors in [1u64 << 32, (1u64 << 32) + 204_800, (1u64 << 33) + 1] {
+            let len = sectors * 512;
+            let base = Arc::new(Base::Proc { len, f: Box::new(move |_, out| out.fill(0)) });
+            let (st, mut dev) = new_dev(&base);
+            st.borrow_mut().sparse_zero = true;
+            st.borrow_mut().arm(None, Some(4_000_000_000));
+            let r = sess::guarded(|| fatfs::format_volume(&mut dev, FormatVolumeOptions::new()).map_err(sess::ek));
+            fulls_auto.fetch_add(1, Ordering::Relaxed);
+            let ctx = format!("default options on a storage of {sectors} sectors");
+            let x = match r {
+                Err(p) => Some((format!("C06/panic/format_volume/{}", panic_class(&p)), format!("{ctx}: {p}"))),
+                Ok(Err(ErrKind::InvalidInput)) => None,
+                Ok(Err(e)) => Some((format!("C06/rejected-with-{}", e.name()), ctx)),
+                Ok(Ok(())) => {
+                    let b: [u8; 512] = st.borrow().read_vec(0, 512).try_into().unwrap();
+                    let declared = decoder::parse_raw(&b).map(|g| g.total_sectors).unwrap_or(0);
+                    Some(("C06/accepted/size-not-taken-from-storage".into(), format!("{ctx}: accepted, volume declares {declared} sectors")))
+                }
+            };
+            if let Some(x) = x {
+                all.entry(x.0).or_insert((x.1, 0)).1 += 1;
+            }
+        }
     }
     // thorough: the whole 32-bit range for default options and forced widths (boot-sector hook)
     let mut sweep = json!(null);
@@ -503,7 +674,7 @@ pub fn run(tier: &str) -> i32 {
     rep.coverage = json!({
         "evaluations": evals.load(Ordering::Relaxed),
         "distinct_nontrivial": classes.len(),
-        "rule": "full product of the declared option grid (sector size x cluster size x forced width x FAT count x root entries x label x volume id) x size set (0..=100, 2^k-1/2^k/2^k+1, u32::MAX, +-2 sectors around every heuristic threshold, +-2 around every size where the produced cluster count crosses 4085 / 65525); every case through the boot-sector hook, small volumes and a per-record budget of larger ones through the full format_volume + independent decode + mount; distinct_nontrivial = distinct (sector size, forced width, outcome class) triples observed",
+        "rule": "full product of the declared option grid (sector size x cluster size x forced width x FAT count x root entries x label x volume id) x size set (0..=100, 2^k-1/2^k/2^k+1, u32::MAX, +-2 sectors around every heuristic threshold, +-2 around every size where the produced cluster count crosses 4085 / 65525, +-2 around every accept/reject edge of the layout computation); full_format_cases counts formats that succeeded; every case through the boot-sector hook, small volumes and a per-record budget of larger ones through the full format_volume + independent decode + mount; distinct_nontrivial = distinct (sector size, forced width, outcome class) triples observed",
         "samples": [
             {"options": "bps 512, defaults", "total_sectors": 42, "mode": "full format + decode + mount"},
             {"options": "bps 4096, bpc 512 (cluster smaller than sector)", "total_sectors": 4096, "mode": "boot-sector hook"},
@@ -512,6 +683,8 @@ pub fn run(tier: &str) -> i32 {
         "exhaustive": ncap == 0,
         "records": recs.len(),
         "full_format_cases": fulls.load(Ordering::Relaxed),
+        "full_formats_on_short_transferring_storage": fulls_short.load(Ordering::Relaxed),
+        "formats_with_size_taken_from_storage": fulls_auto.load(Ordering::Relaxed),
         "rejected_requests_replayed_on_format_volume": rejected_real.load(Ordering::Relaxed),
         "outcome_classes": classes,
         "records_skipped_by_deadline": ncap,
